@@ -2,23 +2,23 @@ check(
     "C08",
     ["Tokenizer", "TokenizerTrace"],
     "TLA+ model of the tokenizer checked exhaustively by TLC (all strings <= N, all quoted token lists); every TLC behaviour replayed on TokenParser/StringArgs/ArgvArgs; recorded random calls validated by TokenizerTrace.tla",
-    "TLC proves totality, termination (Progress), unquoted-split and quoting round trip on the scanner model for all strings up to length 5 (quick) / 7 (thorough) and all quoted lists within bounds; the real tokenizer is shown to follow the model on every one of those inputs (exact equality) and on seeded random larger inputs via trace validation, where every P-clause is evaluated by TLC on the observed result.",
-    "Trusted: TLC/SANY, CommunityModules Json/IOUtils, the 40-line observe() projection. Whitespace limited to SP/TAB (exhaustive) and SP/TAB/LF/CR (traces); non-ASCII is one width-1 symbol; beyond the bounds the claim rests on the random traces only.",
+    "TLC proves totality, termination (Progress), unquoted-split and quoting round trip on the scanner model for all strings up to length 5 (quick) / 7 (thorough) and all quoted lists within bounds; the real tokenizer is shown to follow the model on every one of those inputs (exact equality) and on seeded random larger inputs via trace validation (incl. shell punctuation, eleven whitespace characters, long plain runs and quotes alternating up to 1100 / 2500 levels deep), where every P-clause is evaluated by TLC on the observed result; string and argv form are compared through parser, resolver and full application runs, the caller's argv list handed in twice.",
+    "Trusted: TLC/SANY, CommunityModules Json/IOUtils, the 40-line observe() projection. Whitespace SP/TAB/VT (exhaustive) and eleven Unicode whitespace characters (traces); non-ASCII is one width-1 symbol; beyond the bounds the claim rests on the random traces only.",
     "DESIGN.md#C08",
 )
 check(
     "C12",
     ["Dispatcher", "DispatcherTrace"],
     "TLA+ model of EventDispatcher (P: stable priority order cut at the first stopping listener; A: priority buckets + sorted-list cache) checked by TLC; all operation sequences up to Depth and simulated longer ones replayed on the real dispatcher; random recorded sequences validated by DispatcherTrace.tla",
-    "TLC checks on every reachable state of the model (<= 3/5 listeners, 3 events, 3 priorities) that what a dispatch calls equals the stable priority order of the registrations so far and that a warm cache is never stale; every operation sequence of length 4 (quick) / 5 (thorough) over add/dispatch/get/getall and simulated sequences of length 14 over all operations are replayed on the real EventDispatcher with step-by-step equality; 600/8000 random sequences of up to 40 operations (a quarter through ApplicationConfig.add_event_listener) are decided by TLC with the P-clause evaluated on the observed calls.",
-    "Trusted: TLC, Json module, the Driver projection (listener identity -> registration index). Each registration uses a distinct callable; listeners do not register listeners re-entrantly. Query results (get_listeners, has_listeners, get_listener_priority) are A-clauses: a deviation there is reported as DRIFT, not as a violation, because the statement only speaks about dispatch.",
+    "TLC checks on every reachable state of the model (<= 3/5 listeners, 3 events, 3 priorities) that what a dispatch calls equals the stable priority order of the registrations so far and that a warm cache is never stale; every operation sequence of length 4 (quick) / 5 (thorough) over add/dispatch/get/getall and simulated sequences of length 14 over all operations are replayed on the real EventDispatcher with step-by-step equality; 600/8000 random sequences of up to 40 operations (a quarter through ApplicationConfig.add_event_listener; payloads: none, Event, ConfigEvent, PreResolveEvent, PreHandleEvent; listeners that register listeners) are decided by TLC with the P-clause evaluated on the observed calls; an exception out of any step is an observation (P.no_exception).",
+    "Trusted: TLC, Json module, the Driver projection (listener identity -> registration index). Each registration uses a distinct callable; listeners registered by listeners do not register further ones. Query results (get_listeners, has_listeners, get_listener_priority) are A-clauses: a deviation there is reported as DRIFT, not as a violation, because the statement only speaks about dispatch.",
     "DESIGN.md#C12",
 )
 check(
     "C07",
     ["Elements", "ElementsTrace"],
     "TLA+ transcription of the flag/name/default rules (P) and the constructors' step order (A) checked by TLC over every flag word; every case replayed on Option/CommandOption/Argument; random conversions and names decided by ElementsTrace.tla",
-    "Exhaustive over the stated quantifier: all 2^13 option and 2^11 argument flag words (incl. two/three undefined bits) x short-name presence x default kind (55 312 constructions), all 12 441 role x prefix x names up to length 4, and 2 232 conversion cases are enumerated by TLC, which checks accepts-exactly-valid, consistency of the constructed object and that undefined bits are ignored on the model; the real constructors/parse methods reproduce the model's answer on every one. 1 500 / 20 000 random big integers, dyadic float literals (exact rational expected value computed from the text), arbitrary short texts and longer names are decided by TLC on the observed result.",
+    "Exhaustive over the stated quantifier: all 2^13 option and 2^11 argument flag words (incl. two/three undefined bits) x short-name presence x default kind (55 312 constructions), all 12 441 role x prefix x names up to length 4, and 2 232 conversion cases are enumerated by TLC, which checks accepts-exactly-valid, consistency of the constructed object and that undefined bits are ignored on the model; the real constructors/parse methods reproduce the model's answer on every one (the sibling class sees each flag word first; every accepted object has its default withdrawn and given again: P.ctor.reset). 1 500 / 20 000 random big integers, dyadic float literals (exact rational expected value computed from the text), arbitrary short texts and longer names are decided by TLC on the observed result.",
     "Trusted: TLC + Bitwise/Json modules, observe_* projections. Float round trip only for dyadic literals below 2^30 (no reals in TLC; CPython float() fidelity is outside clikit). Boolean text form = 'true'/'false'. A regex '$' accepting a trailing newline in names is outside the explored alphabets.",
     "DESIGN.md#C07",
 )
@@ -42,7 +42,7 @@ check(
     "C02",
     ["ArgsParser", "ArgsParserTrace"],
     "Same ArgsParser model; TLC enumerates all token lists up to MaxLen over an adversarial alphabet x 7 formats, strict then lenient on one parser object (invariants Allowed, LenientTotal, StrictOkImpliesLenientSame); every outcome replayed on the real parser; random soups decided by ArgsParserTrace.tla",
-    "Exhaustive within bounds: all 16 276 (quick, length <= 3) / 406 901 (thorough, length <= 4) token lists over 25 adversarial tokens x 7 formats x 2 modes are parsed by the model, TLC checking that only documented errors occur, lenient never raises a parse error and agrees with strict whenever strict succeeds; the real parser reproduces the model's outcome (error class and full result) on every one, with and without a base format; random soups up to length 6 are decided by TLC with all P-clauses on the observed outcomes of both modes.",
+    "Exhaustive within bounds: all 20 440 (quick, length <= 3) / 551 881 (thorough, length <= 4) token lists over 27 adversarial tokens x 7 formats x 2 modes are parsed by the model, TLC checking that only documented errors occur, lenient never raises a parse error and agrees with strict whenever strict succeeds; the real parser reproduces the model's outcome (error class and full result) on every one, with and without a base format; faults readable off the line alone (unknown option, value for a flag, required value left out) are P-clauses on every parse and TLC confirms on every soup that the model rejects such lines too (MalformedRejected); random soups up to length 6 and eight kinds of single-fault mutations of well-formed lines are decided by TLC on the observed outcomes of both modes; the same format declared through command configurations and parsed with Command.parse(raw, True/False/nothing) must agree (P.route.command).",
     "Trusted: TLC, Json, argslib. Formats <= 1 command name, <= 2 arguments, <= 2 options. The exact error class for arbitrary soup is an A-clause (DRIFT), only membership in the documented set is a P-clause; single-fault mutations with a fixed expected class are validated in the thorough tier.",
     "DESIGN.md#C02",
 )
@@ -59,7 +59,7 @@ check(
     ["ArgsParser", "ArgsParserTrace"],
     "Two instances of the ArgsParser model in one TLC state (long-lived parser object vs. fresh one, INSTANCE with variable substitution), invariant SameAsFresh over all request sequences; the variant that keeps the option scratch map must violate it; sequences replayed on one real DefaultArgsParser; random sequences decided by ArgsParserTrace.tla",
     "TLC runs every sequence of 2 (quick) / 3 (thorough) requests out of 54 (3 formats sharing option names x 2 modes x 9 lines, successes and failures mixed) on the long-lived and the fresh parser model and checks equality of outcomes; the model of the pinned defect (options not reset) is required to violate the invariant, which keeps the check from being vacuous; each sequence is replayed on one real parser object and compared request by request with the model, with a fresh real parser, and for untouched inputs (argv list, raw tokens, format listings); 400/8000 random sequences of 1-6 requests over the typed soup formats are decided by TLC.",
-    "Trusted: TLC (INSTANCE substitution), argslib.event. 'Fresh parser' = DefaultArgsParser() per request. Parser reuse through Config.set_args_parser/Command.parse is exercised by C17's application runs.",
+    "Trusted: TLC (INSTANCE substitution), argslib.event. 'Fresh parser' = DefaultArgsParser() per request. Command.parse on one Command / raw-args object per format is part of every event (P.route.command); parser reuse through Config.set_args_parser is exercised by C17's application runs.",
     "DESIGN.md#C05",
 )
 check(
@@ -90,7 +90,7 @@ check(
     "C03",
     ["Resolver", "ResolverTrace", "Config", "Suggest"],
     "TLA+ model of DefaultResolver on command trees (P: Lead / Path / Allowed / OutcomeOK and the alias, trailing-option, separator and hidden laws; A: Leading, Descend per token, Pick first-parsable default, Final) checked by TLC; every tree x line replayed on ConsoleApplication.resolve_command; simulated full-family cases and random trees decided by ResolverTrace.tla",
-    "TLC enumerates 288 trees (skeleton of depth 3 with aliases; kinds plain/default/anonymous, enabled/disabled, strict/lenient varied) x every line of a path prefix up to 2 (quick) / 3 (thorough) tokens over names, aliases and an unknown word x 8 suffixes (argument, flag, flag + name, --opt=v + name, '--' tails) and checks that the outcome is the one the statement names plus the metamorphic laws; the real resolver reproduces the model's outcome and per-command parsability on every case (argv and string form alternating); 1500/40000 simulated cases over the full attribute family and 600/12000 random trees (depth <= 3, fan-out <= 3) with random lines are decided by TLC on the observed selection.",
+    "TLC enumerates 288 trees (skeleton of depth 3 with aliases; kinds plain/default/anonymous, enabled/disabled, strict/lenient varied) x every line of a path prefix up to 2 (quick) / 3 (thorough) tokens over names, aliases and an unknown word x 8 suffixes (argument, flag, flag + name, --opt=v + name, '--' tails) and checks that the outcome is the one the statement names plus the metamorphic laws; the real resolver reproduces the model's outcome and per-command parsability on every case (argv and string form alternating); 1500/40000 simulated cases over the full attribute family and 600/12000 random trees (depth <= 3, fan-out <= 3; configured through three equivalent routes; a sub-command named like a global option; one configuration object attached under two parents) with random lines (empty tokens, several option tokens in a row) are decided by TLC on the observed selection. Run with it, DRIFT only: the CommandCollection, the configuration layer (specs/Config) and the did-you-mean suggestions (specs/Suggest).",
     "Trusted: TLC, Json, build_app/observe projection (command identity -> node id, message of CannotResolveCommandException -> undefined token). Sibling names/aliases unique; several default sub-commands: any is allowed; strict commands declare no arguments, lenient ones accept everything.",
     "DESIGN.md#C03",
 )
@@ -114,8 +114,8 @@ check(
     "C17",
     ["RunHistory", "Styles", "RunHistoryTrace"],
     "TLA+ models of what survives inside the process: (a) RunHistory - the per-command leniency override across runs of one application (SameAsFresh, NoResidue; the pinned variant must violate); (b) Styles - the heap of shared BorderStyle prototypes / TableStyle objects and the trace snippet cache (NoAliasing, RenderPure); TLC-enumerated run sequences and style histories replayed on the real objects and decided by RunHistoryTrace.tla / StylesTrace.tla against fresh applications / a fresh process",
-    "(a) every sequence of 2 (quick) / 3 (thorough) line kinds out of 14 (valid, surplus arguments, unknown option, help X, X --help, failing help requests, version, undefined command, empty line) is explored on the model and run on ONE real ConsoleApplication, each run compared by TLC with a freshly built application (status, stdout, stderr, handler calls); 150/3000 random sequences of 2-6 lines incl. lines outside the pool. (b) all orders of making / customising the predefined table styles (<= 4 operations) and repeated renders of tables, help pages, paragraphs, name/version and error traces at each verbosity and UTF-8 setting, each compared with a reference rendered in a truly fresh process.",
-    "Trusted: TLC, interning of outputs (equal ids <=> equal texts), the fresh-process reference server of c17_styles. Same process and terminal width for shared and fresh runs; every run gets a new StringArgs object (re-using one RawArgs object is outside the statement). BlockLayout re-rendered directly is not counted as a component.",
+    "(a) every sequence of 2 (quick) / 3 (thorough) line kinds out of 20 (valid, by alias, surplus arguments, unknown option, help X, X --help, failing help requests, version, undefined command, empty line) is explored on the model and run on ONE real ConsoleApplication, each run compared by TLC with a freshly built application (status, stdout, stderr, handler calls); 150/3000 random sequences of 2-6 lines incl. lines outside the pool. (b) all orders of making / customising the predefined table styles (<= 4 operations) and repeated renders of tables, help pages, paragraphs, name/version and error traces at each verbosity and UTF-8 setting, each compared with a reference rendered in a truly fresh process.",
+    "Trusted: TLC, interning of outputs (equal ids <=> equal texts), the fresh-process reference server of c17_styles. Same process and terminal width for shared and fresh runs; every run gets a new StringArgs / ArgvArgs object (re-using one RawArgs object is outside the statement), the caller's argv list object is handed in again whenever its line comes again. BlockLayout re-rendered directly is not counted as a component.",
     "DESIGN.md#C17",
 )
 check(
